@@ -265,8 +265,17 @@ def run_driver(ops_path, impl_path, out_path, timeout=7200):
     return p.returncode, p.stderr[-2000:]
 
 
+def strip_private(j):
+    """keys starting with '_' carry oracles / side information of the harness and are not compared"""
+    if isinstance(j, dict):
+        return {k: strip_private(v) for k, v in j.items() if not k.startswith("_")}
+    if isinstance(j, list):
+        return [strip_private(x) for x in j]
+    return j
+
+
 def canon(j):
-    return json.dumps(j, sort_keys=True, ensure_ascii=False, separators=(",", ":"))
+    return json.dumps(strip_private(j), sort_keys=True, ensure_ascii=False, separators=(",", ":"))
 
 
 def load_known():
